@@ -181,6 +181,11 @@ def run(prog, rep):
         for cls, sv in (("InflowDrivenDSM", None), ("StockDrivenDSM", "manual"), ("StockDrivenDSM", "lapack")):
             for h in ("CPC", "CPDC"):
                 jobs.append(("history", dict(fx, **({"solver": sv} if sv else {})), cls, h))
+    # only ONE of two parameters changes between two computations
+    for dist in ("NormalLifetime", "WeibullLifetime"):
+        for over in ("number", "all"):
+            for cls, sv in (("InflowDrivenDSM", None), ("StockDrivenDSM", "lapack")):
+                jobs.append(("history", dict(n_t=3, labels=("a",) if over == "all" else (), dist=dist, over=over, n_pts=1, inflow_at="middle", **({"solver": sv} if sv else {})), cls, "ACMC"))
     # parameters edited in place and handed over again as the same objects
     for dist in ("NormalLifetime", "WeibullLifetime"):
         for cls, sv in (("InflowDrivenDSM", None), ("StockDrivenDSM", "manual")):
